@@ -746,7 +746,8 @@ def vmake_call(node, fn, args, _, context):
 @value_evaluate.register_action("X = X")
 def vmake_keyword(node, key, value, context):
     key = value_evaluate(key)
-    assert isinstance(key, VSymbol)
+    if not isinstance(key, VSymbol):
+        raise node.location.syntax_error("A keyword must be a plain name")
     value = value_evaluate(value)
     return VKeyword(key, value)
 
